@@ -57,7 +57,7 @@ def snap(real):
 
 class C11(Check):
     id = "C11"
-    modules = ["EG.Props.C11"]
+    modules = ["EG.Props.C11", "EG.Props.C11Readback"]
     assumptions = ["matrix cells are reduced to their truth value by the adapter (arbitrary truthy / falsy Python values are passed to the real code)",
                    "adjacency dict keys / values and the side array hold Vertex objects"]
 
